@@ -62,11 +62,6 @@ theorem C18_counterexample_upload_not_bound_to_key :
     Differs [.createBucket bka, .createMultipartUpload alice bka kA none, .uploadPart alice bka kB (some 1) 1 [1]] := by
   decide
 
-/-- fs:part-number-not-validated -/
-theorem C18_counterexample_part_number_not_validated :
-    Differs [.createBucket bka, .createMultipartUpload alice bka kA none, .uploadPart alice bka kA (some 1) 0 [1]] := by
-  decide
-
 /-- fs:complete-requires-consecutive-parts -/
 theorem C18_counterexample_complete_requires_consecutive :
     Differs [.createBucket bka, .createMultipartUpload alice bka kA none, .uploadPart alice bka kA (some 1) 2 [1],
@@ -80,6 +75,7 @@ metadata file; ca1e912 copy onto itself keeps the object; d6f1a3c head_object te
 that does not exist is `NoSuchBucket`, not `NoSuchKey`; 0f31b61 delete_objects on a bucket that does not exist is `NoSuchBucket`; 42c2f29 head_object returns the ETag;
 0932917 complete_multipart_upload validates the part list and the part files before it changes anything: a failed complete leaves the upload in place, a part that was never uploaded is `InvalidPart`;
 38336b0 operations on an upload that does not exist answer `NoSuchUpload`;
+531fc88 upload_part and upload_part_copy refuse a part number outside 1..10000;
 b89afe2 ranged reads: covered for all ranges by `C18_get_refines_partial` and `C18_range_check`, the kernel cannot
 evaluate the decimal formatter of `Content-Range`) -/
 
@@ -230,6 +226,32 @@ theorem C18_fixed_unknown_upload :
       [none, some .NoSuchUpload, some .NoSuchUpload, none, some .NoSuchUpload, some .NoSuchUpload, some .NoSuchUpload,
        some .NoSuchUpload, some .NoSuchUpload, some .NoSuchUpload, some .NoSuchUpload, some .NoSuchUpload,
        none, some .AccessDenied, none, some .AccessDenied, none, some .NoSuchUpload, some .NoSuchUpload] := by decide
+
+/-- was fs:part-number-not-validated (the witness history of `corpus/fs.txt` first): upload_part and upload_part_copy with a
+    part number below 1 or above 10000 are `InvalidArgument` on both sides — whatever the upload id —, with 1 and 10000 they
+    are accepted; the refused requests leave no part behind -/
+theorem C18_fixed_part_number_validated :
+    Same [.createBucket bka, .createMultipartUpload alice bka kA none, .uploadPart alice bka kA (some 1) 0 [1],
+      .uploadPart alice bka kA (some 1) (-1) [1], .uploadPart alice bka kA (some 1) 10001 [1],
+      .uploadPart alice bka kA (some 7) 0 [1], .uploadPart alice bka kA none 10001 [1],
+      .putObject bka kB [2] none {} none,
+      .uploadPartCopy alice bka kA (some 1) 0 bka kB none, .uploadPartCopy alice bka kA (some 1) 10001 bka kB none,
+      .uploadPartCopy alice bka kA (some 7) 0 bka kB none,
+      .listParts alice bka kA (some 1),
+      .uploadPart alice bka kA (some 1) 1 [1], .uploadPartCopy alice bka kA (some 1) 10000 bka kB none,
+      .listParts alice bka kA (some 1)] ∧
+    (run H0 0 {} [.createBucket bka, .createMultipartUpload alice bka kA none, .uploadPart alice bka kA (some 1) 0 [1],
+      .uploadPart alice bka kA (some 1) (-1) [1], .uploadPart alice bka kA (some 1) 10001 [1],
+      .uploadPart alice bka kA (some 7) 0 [1], .uploadPart alice bka kA none 10001 [1],
+      .putObject bka kB [2] none {} none,
+      .uploadPartCopy alice bka kA (some 1) 0 bka kB none, .uploadPartCopy alice bka kA (some 1) 10001 bka kB none,
+      .uploadPartCopy alice bka kA (some 7) 0 bka kB none,
+      .listParts alice bka kA (some 1),
+      .uploadPart alice bka kA (some 1) 1 [1], .uploadPartCopy alice bka kA (some 1) 10000 bka kB none,
+      .listParts alice bka kA (some 1)]).2.map tagOf =
+      [none, none, some .InvalidArgument, some .InvalidArgument, some .InvalidArgument, some .InvalidArgument,
+       some .InvalidArgument, none, some .InvalidArgument, some .InvalidArgument, some .InvalidArgument, none, none, none,
+       none] := by decide
 
 /-- was fs:suffix-range-longer-than-object / fs:suffix-range-huge-panics: the model no longer fails or panics (the answer
     itself is compared by `C18_get_refines_partial`) -/
